@@ -15,6 +15,18 @@ func main() {
 	case "C06", "C07", "C16":
 		vsched.TrackStates = false
 		runProto(R, prop)
+	case "C10":
+		vsched.TrackStates = false
+		runC10(R)
+	case "C15":
+		vsched.TrackStates = false
+		runC15(R)
+	case "C19":
+		vsched.TrackStates = false
+		runC19(R)
+	case "C14":
+		vsched.TrackStates = false
+		runC14(R)
 	default:
 		fmt.Fprintln(os.Stderr, "vharness: unknown property", prop)
 		os.Exit(3)
